@@ -6,7 +6,7 @@ import numpy as np
 
 
 # --------------------------------------------------------------------------- Nelder-Mead (scipy.optimize.fmin)
-def nelder_mead(f, x0, xtol=1e-4, ftol=1e-4, maxiter=None, maxfun=None, trace=None, margins=None, zdelt=0.00025):
+def nelder_mead(f, x0, xtol=1e-4, ftol=1e-4, maxiter=None, maxfun=None, trace=None, margins=None, zdelt=0.00025, adaptive=False):
     """transcription of scipy.optimize.fmin (non-adaptive).  Returns (x, fval, iterations, fcalls, warnflag).
     trace: list receiving (sim, fsim) copies after the simplex is built and after every iteration.
     margins: list receiving the relative margin of every decisive comparison (near-tie guard)."""
@@ -26,7 +26,11 @@ def nelder_mead(f, x0, xtol=1e-4, ftol=1e-4, maxiter=None, maxfun=None, trace=No
     N = len(x0)
     if maxiter is None: maxiter = N * 200
     if maxfun is None: maxfun = N * 200
-    rho = 1; chi = 2; psi = 0.5; sigma = 0.5
+    if adaptive:     # Gao & Han's dimension-dependent coefficients, as in scipy's minimize(..., options={'adaptive': True})
+        dim = float(N)
+        rho = 1; chi = 1 + 2 / dim; psi = 0.75 - 1 / (2 * dim); sigma = 1 - 1 / dim
+    else:
+        rho = 1; chi = 2; psi = 0.5; sigma = 0.5
     one2np1 = list(range(1, N + 1))
     sim = np.zeros((N + 1, N), dtype=x0.dtype)
     fsim = np.zeros((N + 1,), float)
@@ -131,7 +135,7 @@ def powell(f, x0, brent, xtol=1e-4, maxsweeps=10, direc=None, imax=500, events=N
 
     x = np.asarray(x0, dtype=float).flatten()
     N = len(x)
-    direc = np.eye(N, dtype=float) if direc is None else np.asarray(direc, dtype=float)
+    direc = np.eye(N, dtype=float) if direc is None else np.array(direc, dtype=float)     # (a copy: it is updated in place)
     fval = np.squeeze(f(x))
     x1 = x.copy()
     sweeps = 0
